@@ -157,11 +157,13 @@ def diagonalize_form(bilinear_form,
     eigs, U = eigh(bilinear_form)
     Uinv = conjugate(U.swapaxes(-1, -2))
 
-    Dinv = construct_diagonal(np.sqrt(np.abs(eigs)))
-    D = zeros(Dinv.shape, like=Dinv)
+    # directions in the kernel of the form are left unscaled, so that W
+    # stays invertible when the form is degenerate
+    scale = np.sqrt(np.abs(eigs))
+    scale = np.where(np.isclose(scale.astype('float64'), 0.), 1, scale)
 
-    close_to_zero = np.isclose(Dinv.astype('float64'), 0.)
-    np.divide(1, Dinv, out=D, where=~close_to_zero)
+    Dinv = construct_diagonal(scale)
+    D = construct_diagonal(1 / scale)
 
     n_eigs = eigs.astype('float64')
 
